@@ -43,10 +43,14 @@ class UserProblem(Problem):
         self.hpat = F.hess_pattern()
         self._memo = {}
         self._const = {}
+        vlb, vub = F.var_lb, F.var_ub
+        if spec.get("intbounds"):
+            # the user wrote the bounds as integers: Problem(np.array([1, 1]), np.array([4, 6]))
+            vlb, vub = np.array(vlb).astype(np.int64), np.array(vub).astype(np.int64)
         if F.m > 0:
-            super().__init__(F.var_lb, F.var_ub, cons_lb=F.cons_lb.copy(), cons_ub=F.cons_ub.copy())
+            super().__init__(vlb, vub, cons_lb=F.cons_lb.copy(), cons_ub=F.cons_ub.copy())
         else:
-            super().__init__(F.var_lb, F.var_ub)
+            super().__init__(vlb, vub)
         self.jac_const = not any(F.hasQ) and not F.ccub.any()
         self.hess_const = (self.jac_const and not F.cub.any() and not F.quart.any()
                            and F.exp is None and F.logbar is None and not F.rosen and not F.entropy)
